@@ -13,6 +13,8 @@ from .shared import EAGER, _mentions, await_map, lazy_callback_rules
 
 SUMMARY = "Order of disposition and result store, results-disabled guard, field mapping of every result bucket construction."
 DECIDED = [
+    "R-C13-OUTCOME: everything between the actor call and the encoded return value (argument conversion, dependency resolution, the call, convert_outputs) sits in the try "
+    "whose generic handler records a failed outcome - an unencodable return value ends as a stored failure, not as an execution without outcome (C02's CATCH rules, reused)",
     "R-C13-ORDER: in process() the result store is reached only after the disposition has returned, is skipped after an "
     "eager response, and its failure leaves process() without any further broker operation",
     "R-C13-OFF: every store on the results broker is unreachable when parameters.result is None (set_result_bucket "
@@ -30,6 +32,9 @@ ASSUMPTIONS = ["store_bucket under an existing id overwrites (both bucket broker
 
 def run(ctx: Ctx) -> None:
     bucket_brokers(ctx)
+    from .C02 import catch
+
+    catch(ctx, "R-C13-OUTCOME")  # whatever fails between the actor call and the encoded return value ends as a recorded failed outcome
     order(ctx)
     off(ctx)
     fields(ctx)
@@ -305,6 +310,23 @@ def validate(ctx: Ctx, rule="R-C13-VALIDATE") -> None:
                   "a failing bucket-class probe does not end in ValueError", instance="Connection validation raises")
 
 
+def redis_bucket_expiry(ctx: Ctx, rule: str) -> None:
+    """Redis deletes a bucket at the absolute time timestamp + ttl (the same `timestamp + ttl` every expiry decision uses), never without a ttl."""
+    rd = "repid.connections.redis.bucket_broker.RedisBucketBroker"
+    st = ctx.func(f"{rd}.store_bucket")
+    sc = [c for c in ast.walk(st.node) if isinstance(c, ast.Call) and dotted(c.func) == "self.conn.set"]
+    ctx.require(len(sc) == 1, f"{st.qualname}: the SET call not found")
+    rel = [k.arg for k in sc[0].keywords if k.arg in ("ex", "px", "pxat", "keepttl")]
+    ex = C.call_as_expr(ctx, st, C.inline_locals(st, C.kw(sc[0], "exat"), calls="all"))
+    t = C.negate_aware_ifexp(ex) if ex is not None else None
+    ok = not rel and t is not None and isinstance(t[0], ast.Compare) and dotted(t[0].left) == "payload.ttl" and C.is_const(t[0].comparators[0], None) and C.is_const(t[1], None) \
+        and isinstance(t[2], ast.BinOp) and isinstance(t[2].op, ast.Add) and {dotted(t[2].left), dotted(t[2].right)} == {"payload.timestamp", "payload.ttl"}
+    ctx.check(ok, rule, st, "redis bucket expiry = timestamp + ttl, none without ttl", "exat=payload.timestamp + payload.ttl if ttl is not None else None",
+              f"redis store_bucket expires the bucket with {'exat=' + unparse(ex) if ex is not None else ', '.join(k.arg + '=' + unparse(k.value) for k in sc[0].keywords if k.arg in rel) or '<nothing>'}: "
+              "the bucket does not expire at timestamp + ttl like every other expiry decision (a time-to-live counted from the moment of storing outlives is_overdue; none at all never expires)",
+              node=sc[0], instance="redis expiry")
+
+
 def bucket_brokers(ctx: Ctx, rule="R-C13-FIELDS") -> None:
     """store under the id / read the same id back, in both bucket brokers; Redis expiry from timestamp + ttl."""
     im = "repid.connections.in_memory.bucket_broker.InMemoryBucketBroker"
@@ -335,13 +357,7 @@ def bucket_brokers(ctx: Ctx, rule="R-C13-FIELDS") -> None:
     sc = [c for c in ast.walk(st.node) if isinstance(c, ast.Call) and dotted(c.func) == "self.conn.set"]
     ok = len(sc) == 1 and dotted(sc[0].args[0]) == "id_" and unparse(sc[0].args[1]) == "payload.encode()"
     ctx.check(ok, rule, st, "redis store_bucket: SET id_ <encoded bucket>", "set(id_, payload.encode())", f"redis store_bucket does {unparse(sc[0])[:80] if sc else 'nothing'}", instance="redis store")
-    if sc:
-        ex = C.call_as_expr(ctx, st, C.inline_locals(st, C.kw(sc[0], "exat"), calls="all"))
-        t = C.negate_aware_ifexp(ex) if ex is not None else None
-        ok = t is not None and isinstance(t[0], ast.Compare) and dotted(t[0].left) == "payload.ttl" and C.is_const(t[0].comparators[0], None) and C.is_const(t[1], None) \
-            and isinstance(t[2], ast.BinOp) and isinstance(t[2].op, ast.Add) and {dotted(t[2].left), dotted(t[2].right)} == {"payload.timestamp", "payload.ttl"}
-        ctx.check(ok, rule, st, "redis bucket expiry = timestamp + ttl, none without ttl", "exat=payload.timestamp + payload.ttl if ttl is not None else None",
-                  f"redis store_bucket expires the bucket with exat={unparse(ex) if ex is not None else '<missing>'}: the configured result time-to-live is not honoured", instance="redis expiry")
+    redis_bucket_expiry(ctx, rule)
     gb = ctx.func(f"{rd}.get_bucket")
     gc = [c for c in ast.walk(gb.node) if isinstance(c, ast.Call) and dotted(c.func) == "self.conn.get"]
     dc = [c for c in ast.walk(gb.node) if isinstance(c, ast.Call) and dotted(c.func) == "self.BUCKET_CLASS.decode"]
